@@ -230,4 +230,21 @@ theorem lastNode_shift (c : K) : ∀ (a : K × K) (l : List (K × K)),
   | _, [] => rfl
   | _, b :: l => by simp only [List.map_cons, lastNode]; exact lastNode_shift c b l
 
+/-- strictly increasing list of abscissae `x0 :: xs` -/
+def SortedLt : K → List K → Prop
+  | _, [] => True
+  | a, b :: l => a < b ∧ SortedLt b l
+
+/-- the table of a monotone function over strictly increasing abscissae is an increasing node list -/
+theorem inc_mkTable {f : K → K} (hf : Monotone f) : ∀ (x0 : K) (xs : List K), SortedLt x0 xs →
+    Inc (x0, f x0) (mkTable f xs)
+  | _, [], _ => trivial
+  | x0, x1 :: l, ⟨h1, h2⟩ => ⟨h1, hf h1.le, inc_mkTable hf x1 l h2⟩
+
+/-- … and of a strictly monotone function a strictly increasing one -/
+theorem strictInc_mkTable {f : K → K} (hf : StrictMono f) : ∀ (x0 : K) (xs : List K), SortedLt x0 xs →
+    StrictInc (x0, f x0) (mkTable f xs)
+  | _, [], _ => trivial
+  | x0, x1 :: l, ⟨h1, h2⟩ => ⟨h1, hf h1, strictInc_mkTable hf x1 l h2⟩
+
 end NiftyVerif.Priors
